@@ -42,6 +42,49 @@ theorem checkRow_ok_iff (n minSize k : Nat) (row : List Int) :
     simp [h1, hall]
     exact h3
 
+theorem wrap64_id (d : Int) (h1 : -9223372036854775808 ≤ d) (h2 : d < 9223372036854775808) :
+    wrap64 d = d := by
+  unfold wrap64; omega
+
+theorem rowDiffsW_eq (n : Nat) (hn : (n : Int) < 9223372036854775808) : ∀ (row : List Int),
+    (∀ c ∈ row, 0 ≤ c ∧ c ≤ (n : Int)) → rowDiffsW row = rowDiffs row
+  | [], _ => rfl
+  | [_], _ => rfl
+  | a :: b :: t, h => by
+    have ha := h a (by simp)
+    have hb := h b (by simp)
+    simp only [rowDiffsW, rowDiffs]
+    rw [wrap64_id (b - a) (by omega) (by omega),
+      rowDiffsW_eq n hn (b :: t) (fun c hc => h c (List.mem_cons_of_mem a hc))]
+
+/-- **C13, machine arithmetic**: with the differences taken in int64 arithmetic — what the code executes
+    once the cuts are normalised to int64 — the accepted rows are still exactly the valid ones, for every
+    `n < 2^63`: a wrapped difference can only come from an entry outside `[0, n]`, which the range test rejects -/
+theorem checkRowW_ok_iff (n minSize k : Nat) (hn : (n : Int) < 9223372036854775808) (row : List Int) :
+    checkRowW n minSize k row = .ok () ↔ ValidRow n minSize k row := by
+  rw [← checkRow_ok_iff]
+  have key : (∀ c ∈ row, 0 ≤ c ∧ c ≤ (n : Int)) → rowDiffsW row = rowDiffs row := rowDiffsW_eq n hn row
+  unfold checkRowW checkRow
+  by_cases hr : row.any (fun c => decide (c < 0 ∨ (n : Int) < c)) = true
+  · simp only [hr]
+    split_ifs <;> simp
+  · have hrange : ∀ c ∈ row, 0 ≤ c ∧ c ≤ (n : Int) := by
+      intro c hc
+      have : ¬ ∃ c ∈ row, c < 0 ∨ (n : Int) < c := by simpa [List.any_eq_true] using hr
+      have : ¬ (c < 0 ∨ (n : Int) < c) := fun hcc => this ⟨c, hc, hcc⟩
+      omega
+    rw [key hrange]
+
+/-- why the range test must look at every entry: in int64 arithmetic the spacing test alone
+    accepts the row `[126, -2^63 + 1]` (the difference wraps to a large positive number) -/
+example : (rowDiffsW [126, -9223372036854775807]).all (fun d => decide ((1 : Int) ≤ d)) = true := by
+  decide
+
+/-- and why cuts of unsigned or narrow dtype are normalised first (finding #24): in 8-bit unsigned
+    arithmetic `3 - 5 = 254`, so the invalid row `[5, 3]` passes the spacing test and both entries
+    are in range -/
+example : ((3 - 5 : Int) % 256 = 254) ∧ (1 : Int) ≤ 254 := by decide
+
 /-- **C13**: no accepted cut indexes outside the prefix-sum tables (`n + 1` rows) or slices past
     the data: every entry is a position in `0..n` -/
 theorem accepted_positions_in_range (n minSize k : Nat) (row : List Int)
